@@ -4,6 +4,8 @@ CONSTANTS
   KeysNested = {"a"}
   Depth = 2
   Export = TRUE
+  Catalogue = "kinds"
+  SizeTest = "order"
   Caught = {"TypeError","ValueError"}
 INVARIANT RoundTrip
 INVARIANT NoError
